@@ -1,20 +1,21 @@
 import SignaloModel.Proofs.OwnedProofs
 import SignaloModel.Proofs.OwnedMedian
+import SignaloModel.Proofs.OwnedDeque
+import SignaloModel.Proofs.OwnedRuns
 /-!
-# C19 — Windowed filters drop every owned sample exactly once (ownership logic; partial)
+# C19 — Windowed filters drop every owned sample exactly once
 
-`Registry.St.owned` counts the sample values a windowed filter's model state holds. The harness's
-live-instance ledger of an instrumented sample type must equal the sum of `owned` over all live
-instances after every operation of any program of filter / clone / reset / guts round trip / drop
-(leak: ledger too high; double drop or read of a dead value: ledger error count).
-Property theorems (statements printed by `#check`, axioms by `#print axioms`):
-what is owned after construction, after reset, after a step of the mean / convolution / delay filters, and by the
-median filter in every state reachable from `Default` (`min k N` values: one per window sample);
-copies (clone, guts) are the identity on model states, so they own what the original owns (`run_append`).
-Not modelled: initialisation / aliasing behaviour of the `MaybeUninit` block in `median.rs`.
+The property theorems for C19: `#check` prints each statement, `#print axioms` its axioms;
+`bin/check C19` re-elaborates this file on every run and audits the axiom lists.
 -/
 open SignaloModel
 
+#check @Registry.owned_mean_registry
+#check @Registry.owned_delay_registry
+#check @Registry.owned_convolve_registry
+#check @Registry.owned_bounds_registry
+#check @Registry.owned_min_registry
+#check @Registry.owned_max_registry
 #check @Registry.owned_init
 #check @Registry.owned_reset
 #check @Registry.pushLoop_length
@@ -25,12 +26,18 @@ open SignaloModel
 #check @Registry.owned_median_registry
 #check @Registry.run_append
 
+#print axioms Registry.owned_mean_registry
+#print axioms Registry.owned_delay_registry
+#print axioms Registry.owned_convolve_registry
+#print axioms Registry.owned_bounds_registry
+#print axioms Registry.owned_min_registry
+#print axioms Registry.owned_max_registry
 #print axioms Registry.owned_init
 #print axioms Registry.owned_reset
 #print axioms Registry.pushLoop_length
 #print axioms Registry.owned_convolve_step
 #print axioms Registry.owned_delay_step
 #print axioms Registry.owned_mean_step
-#print axioms Registry.run_append
 #print axioms MedianL.owned_of_rep
 #print axioms Registry.owned_median_registry
+#print axioms Registry.run_append
